@@ -73,6 +73,9 @@ fn cmd_defs(out: &Path, files: &[PathBuf]) {
                 Ok((gen, cap)) => {
                     writeln!(capf, "panic 0").unwrap();
                     writeln!(capf, "genlen {}", gen.len()).unwrap();
+                    if std::env::var("VERIF_WRITE_GEN").is_ok() {
+                        std::fs::write(out.join(format!("{id}.gen")), &gen).unwrap();
+                    }
                     writeln!(capf, "has_compile_error {}", gen.contains("compile_error") as u8).unwrap();
                     match cap {
                         Some(c) => capf.write_all(c.as_bytes()).unwrap(),
